@@ -15,6 +15,7 @@
                 variable, innermost scope first, that passes VarInfo.IsCorrectPosition. *)
 From Coq Require Import List NArith ZArith Bool.
 From LH Require Import Base.Bytes Base.Res Model.Lexer Model.Ast Model.Parser Model.LuaFront Spec.LuaUsage.
+From LH Require Model.Scope.   (* only the record of repairs `Scope.bfixes` is used *)
 Import ListNotations.
 Local Open Scope N_scope.
 
@@ -83,6 +84,36 @@ Fixpoint local_rest (ns : list name) (ls : list loc) (ats : list attr) (lastcall
                 (match lastcall with Some _ => false | None => true end) [])
     :: local_rest ns' ls' ats' lastcall
   | _, _, _ => []
+  end.
+
+(* cgLocalVarDeclStat (since fixes/C07-multi-local-order.diff): the expressions that are visited - all of them up to
+   and including the first one beyond the names - and, afterwards, the variables created for the names that have an
+   initialiser (then local_rest for the others) *)
+Fixpoint local_visited (ns : list name) (ls : list loc) (ats : list attr) (es : list exp) {struct es} : list exp :=
+  match es with
+  | e :: es' =>
+    e :: match ns, ls, ats with
+         | _ :: ns', _ :: ls', _ :: ats' => local_visited ns' ls' ats' es'
+         | _, _, _ => []
+         end
+  | [] => []
+  end.
+
+Fixpoint local_add_acts (ns : list name) (ls : list loc) (ats : list attr) (es : list exp) {struct es}
+  : list action :=
+  match es with
+  | e :: es' =>
+    match ns, ls, ats with
+    | n :: ns', l :: ls', a :: ats' =>
+      let v := mkVar n l false (match a with AttrClose => true | _ => false end) (is_func_exp e) (Some e)
+                     (local_refer_empty n e) [] in
+      match es' with
+      | [] => AAdd v :: local_rest ns' ls' ats' (if is_call_exp e then Some e else None)
+      | _ => AAdd v :: local_add_acts ns' ls' ats' es'
+      end
+    | _, _, _ => []
+    end
+  | [] => local_rest ns ls ats None
   end.
 
 (* conditions and blocks of an `if` statement alternate: cond1, block1, cond2, block2, ... *)
@@ -171,22 +202,22 @@ with tr_stat (s : stat) (flv slv : N) (g : ign) {struct s} : list action * ign :
     (* for every variable: its expression (if any) is visited, then the variable is resolved; surplus expressions last *)
     assign_thread flv slv vars (map (fun e => (e, fun g0 => tr_exp e None flv g0)) es) g
   | SLocal ns ls ats es _ =>
-    (fix go (ns : list name) (ls : list loc) (ats : list attr) (es : list exp) (g : ign) {struct es} : list action * ign :=
-       match es with
-       | e :: es' =>
-         let (a1, g1) := tr_exp e None flv g in
-         match ns, ls, ats with
-         | n :: ns', l :: ls', a :: ats' =>
-           let v := mkVar n l false (match a with AttrClose => true | _ => false end) (is_func_exp e) (Some e)
-                          (local_refer_empty n e) [] in
-           match es' with
-           | [] => (a1 ++ AAdd v :: local_rest ns' ls' ats' (if is_call_exp e then Some e else None), g1)
-           | _ => let (a2, g2) := go ns' ls' ats' es' g1 in (a1 ++ AAdd v :: a2, g2)
-           end
-         | _, _, _ => (a1, g1)            (* i >= nNames: break, the remaining expressions are never visited *)
-         end
-       | [] => (local_rest ns ls ats None, g)
-       end) ns ls ats es g
+    (* all the initialisers first, then the names (before fixes/C07-multi-local-order.diff: name i right after
+       initialiser i, so a later initialiser saw the earlier names of the statement) *)
+    let (a1, g1) :=
+        (* = thread (fun x g0 => tr_exp x None flv g0) (local_visited ns ls ats es) g, written as a structural loop *)
+        (fix go (ns : list name) (ls : list loc) (ats : list attr) (es : list exp) (g : ign) {struct es}
+           : list action * ign :=
+           match es with
+           | e :: es' =>
+             let (a1, g1) := tr_exp e None flv g in
+             match ns, ls, ats with
+             | _ :: ns', _ :: ls', _ :: ats' => let (a2, g2) := go ns' ls' ats' es' g1 in (a1 ++ a2, g2)
+             | _, _, _ => (a1 ++ [], g1)          (* i >= nNames: break, the remaining expressions are never visited *)
+             end
+           | [] => ([], g)
+           end) ns ls ats es g in
+    (a1 ++ local_add_acts ns ls ats es, g1)
   | SLocalFunc n nl f _ =>
     let (a, g1) := tr_exp f None flv g in
     (AAdd (mkVar n nl false false true (Some f) false []) :: a, g1)
@@ -202,6 +233,129 @@ with tr_block (b : block) (flv slv : N) (g : ign) {struct b} : list action * ign
                     end in
     (a1 ++ a2, g2)
   end.
+
+(* ------------------------------------------------------------------ the linearisation with the repairs of the binder
+   family as a parameter (Model/Scope.v `bfixes`: bf_for_order, bf_multi_local); same text as tr_exp / tr_stat /
+   tr_block, `tr_*_fx Scope.deployed` is convertible with them (Proofs/UsageWitness.v) *)
+Section UsageFx.
+Variable fx : Scope.bfixes.
+Fixpoint tr_exp_fx (e : exp) (bp : option exp) (flv : N) (g : ign) {struct e} : list action * ign :=
+  match e with
+  | EParens e1 _ => tr_exp_fx e1 bp flv g
+  | EName n l => ([ARead n l flv (name_eqb (ig_str g) n && (ig_line g =? sl l)%Z) (circ_of n bp)], g)
+  | EFunc _ _ pars plocs b _ _ _ =>
+    let (a, g1) := tr_block_fx b (flv + 1) 0 g in
+    (APush :: adds pars plocs ++ a ++ [APop], g1)
+  | EUnop op e1 l =>
+    let g1 := if tk_is op TkOpNot && ig_inif g
+              then (let k := sub_key (exp_name e1) in if nonempty k then set_str g k (el l) else g) else g in
+    let (a, g2) := tr_exp_fx e1 None flv g1 in (a, clr_str g2)
+  | EBinop op e1 e2 l =>
+    let g1 := if tk_is op TkOpEq && ig_inif g && is_nil_exp e2
+              then (let k := sub_key (exp_name e1) in if nonempty k then set_str g k (sl l) else g) else g in
+    let g2 := if tk_is op TkOpOr && negb (ig_inif g1) && nonempty (ig_assign g1)
+              then (let k := sub_key (exp_name e1) in if name_eqb k (ig_assign g1) then set_str g1 k (sl l) else g1) else g1 in
+    let (a1, g3) := tr_exp_fx e1 (Some e) flv g2 in
+    let (a2, g4) := tr_exp_fx e2 (Some e) flv g3 in
+    (a1 ++ a2, clr_str g4)
+  | ECall p _ args _ =>
+    let (a1, g1) := tr_exp_fx p None flv g in
+    let (a2, g2) := thread (fun x g0 => tr_exp_fx x None flv g0) args g1 in
+    (a1 ++ a2, g2)
+  | _ => ([], g)
+  end
+with tr_stat_fx (s : stat) (flv slv : N) (g : ign) {struct s} : list action * ign :=
+  match s with
+  | SDo b _ =>
+    let (a, g1) := tr_block_fx b flv (slv + 1) g in (APush :: a ++ [APop], g1)
+  | SCall e => tr_exp_fx e None flv g
+  | SWhile e b _ =>
+    let (a1, g1) := tr_exp_fx e None flv g in
+    let (a2, g2) := tr_block_fx b flv (slv + 1) g1 in
+    (a1 ++ APush :: a2 ++ [APop], g2)
+  | SRepeat b e _ =>
+    let (a1, g1) := tr_block_fx b flv (slv + 1) g in
+    let (a2, g2) := tr_exp_fx e None flv g1 in
+    (APush :: a1 ++ a2 ++ [APop], g2)
+  | SIf es bs _ =>
+    alt_thread
+      (map (fun e g0 => tr_exp_fx e None flv (set_inif g0 true)) es)
+      (map (fun b g0 => let (a2, g2) := tr_block_fx b flv (slv + 1) (set_inif g0 false) in (APush :: a2 ++ [APop], g2)) bs) g
+  | SForNum n vl e1 e2 e3 b _ =>
+    if Scope.bf_for_order fx then
+      let (a1, g1) := tr_exp_fx e1 None flv g in
+      let (a2, g2) := tr_exp_fx e2 None flv g1 in
+      let (a3, g3) := tr_exp_fx e3 None flv g2 in
+      let (a4, g4) := tr_block_fx b flv (slv + 1) g3 in
+      (APush :: a1 ++ a2 ++ a3 ++ AAdd (param_var n vl) :: a4 ++ [APop], g4)
+    else
+      let (a1, g1) := tr_exp_fx e1 None flv g in
+      let (a3, g2) := tr_exp_fx e3 None flv g1 in        (* StepExp before LimitExp *)
+      let (a2, g3) := tr_exp_fx e2 None flv g2 in
+      let (a4, g4) := tr_block_fx b flv (slv + 1) g3 in
+      (APush :: a1 ++ a3 ++ a2 ++ AAdd (param_var n vl) :: a4 ++ [APop], g4)
+  | SForIn ns ls es b _ =>
+    let (a1, g1) := thread (fun x g0 => tr_exp_fx x None flv g0) es g in
+    let (a2, g2) := tr_block_fx b flv (slv + 1) g1 in
+    (APush :: a1 ++ adds ns ls ++ a2 ++ [APop], g2)
+  | SAssign vars es _ =>
+    (* for every variable: its expression (if any) is visited, then the variable is resolved; surplus expressions last *)
+    assign_thread flv slv vars (map (fun e => (e, fun g0 => tr_exp_fx e None flv g0)) es) g
+  | SLocal ns ls ats es _ =>
+    if Scope.bf_multi_local fx then
+    (* all the initialisers first, then the names (before fixes/C07-multi-local-order.diff: name i right after
+         initialiser i, so a later initialiser saw the earlier names of the statement) *)
+        let (a1, g1) :=
+          (* = thread (fun x g0 => tr_exp_fx x None flv g0) (local_visited ns ls ats es) g, written as a structural loop *)
+          (fix go (ns : list name) (ls : list loc) (ats : list attr) (es : list exp) (g : ign) {struct es}
+             : list action * ign :=
+             match es with
+             | e :: es' =>
+               let (a1, g1) := tr_exp_fx e None flv g in
+               match ns, ls, ats with
+               | _ :: ns', _ :: ls', _ :: ats' => let (a2, g2) := go ns' ls' ats' es' g1 in (a1 ++ a2, g2)
+               | _, _, _ => (a1 ++ [], g1)          (* i >= nNames: break, the remaining expressions are never visited *)
+               end
+             | [] => ([], g)
+             end) ns ls ats es g in
+      (a1 ++ local_add_acts ns ls ats es, g1)
+    else
+      (fix go (ns : list name) (ls : list loc) (ats : list attr) (es : list exp) (g : ign) {struct es} : list action * ign :=
+         match es with
+         | e :: es' =>
+           let (a1, g1) := tr_exp_fx e None flv g in
+           match ns, ls, ats with
+           | n :: ns', l :: ls', a :: ats' =>
+             let v := mkVar n l false (match a with AttrClose => true | _ => false end) (is_func_exp e) (Some e)
+                            (local_refer_empty n e) [] in
+             match es' with
+             | [] => (a1 ++ AAdd v :: local_rest ns' ls' ats' (if is_call_exp e then Some e else None), g1)
+             | _ => let (a2, g2) := go ns' ls' ats' es' g1 in (a1 ++ AAdd v :: a2, g2)
+             end
+           | _, _, _ => (a1, g1)            (* i >= nNames: break, the remaining expressions are never visited *)
+           end
+         | [] => (local_rest ns ls ats None, g)
+         end) ns ls ats es g
+  | SLocalFunc n nl f _ =>
+    let (a, g1) := tr_exp_fx f None flv g in
+    (AAdd (mkVar n nl false false true (Some f) false []) :: a, g1)
+  | _ => ([], g)
+  end
+with tr_block_fx (b : block) (flv slv : N) (g : ign) {struct b} : list action * ign :=
+  match b with
+  | Block ss ret _ =>
+    let (a1, g1) := thread (fun s g0 => tr_stat_fx s flv slv g0) ss g in
+    let (a2, g2) := match ret with
+                    | Some es => thread (fun x g0 => tr_exp_fx x None flv g0) es g1
+                    | None => ([], g1)
+                    end in
+    (a1 ++ a2, g2)
+  end.
+
+End UsageFx.
+
+Definition trace_fx (fx : Scope.bfixes) (b : block) : list action :=
+  APush :: fst (tr_block_fx fx b 0 0 ign0) ++ [APop].
 
 (* HandleFirstTraverseAST / HandleTermTraverseAST: the main scope of the file, cgBlock, exitScope *)
 Definition trace (b : block) : list action := APush :: fst (tr_block b 0 0 ign0) ++ [APop].
@@ -503,6 +657,10 @@ Section Pipeline.
   Definition go_diags (b : block) (all : list name) : list diag :=
     let p1 := first_pass b in
     s1_diags p1 ++ s3_diags (run3 true c (s1_gmap p1) all (trace b)).
+  (* the same for a variant of the code *)
+  Definition go_diags_fx (fx : Scope.bfixes) (b : block) (all : list name) : list diag :=
+    let p1 := run1 true c (trace_fx fx b) in
+    s1_diags p1 ++ s3_diags (run3 true c (s1_gmap p1) all (trace_fx fx b)).
 
   (* what the property demands for the same file; `others` = global names of the other files *)
   Definition supp_locs (b : block) : list loc :=
